@@ -81,6 +81,17 @@ CLAIMED.update({
              technique='Coq proof (refinement to an abstract record by induction over histories, on top of the C01/C02/C04/C12 theorems); differential runs of generated histories with shrinking',
              ref='DESIGN.md section 4 C05'),
 })
+CLAIMED.update({
+ 'C06': dict(text='Theorem C06_build: the modelled Avtp_Can_CreateAcfMessage / Avtp_CanBrief_SetPayload (hand model CanModel.v of Can.c / CanBrief.c, field writes through the '
+                  'generated accessor records) produce exactly the reference message for every 32-bit identifier, both variants, every payload length < 2^16, every prior buffer; '
+                  'C06_message_bytes / C06_header_fields say what that message is (payload verbatim, zero pad to the quadlet, length/pad/id/eff/fdf, every other bit and every later '
+                  'byte unchanged, brief builder returns hdr+len+pad); C06_readback (payload length reads back for all len < 256, by a verified sweep of the 8-bit arithmetic); '
+                  'C06_compose (SetPayload + the three dedicated setters in ANY order + Finalize = one-call builder, via Permutation).',
+             note=FIELD_NOTE + ' The builder functions themselves are hand-modelled statement by statement (C integer conversions explicit) and tied to the code by differential '
+                  'execution on exact-extent buffers under ASan: all lengths 0..64, boundaries to 2028 and beyond.',
+             technique='Coq proof over a hand-written executable model of the builders on top of the regenerated accessor records; differential tie + reference search',
+             ref='DESIGN.md section 4 C06'),
+})
 ALL = ['C%02d' % i for i in range(1, 21)]
 def main():
     checks = []
